@@ -14,7 +14,7 @@ func init() {
 	registerProperty(&PropertyInfo{
 		ID:    "C12",
 		Title: "Snapshot files round-trip and every damaged file is rejected safely",
-		Rules: []string{"C12.R1", "C12.R2", "C12.R3", "C12.R4", "C12.R5", "C12.R6", "C03.R1", "C03.R2", "C03.R4"},
+		Rules: []string{"C12.R1", "C12.R2", "C12.R3", "C12.R4", "C12.R5", "C12.R6", "C12.R7", "C03.R1", "C03.R2", "C03.R4"},
 		Decides: "decoder obligations on every path: the sequence of encoding primitives (uvarint, fixed 4-byte big-endian, raw bytes) emitted by Snapshot.WriteTo and its helpers equals, as a set of traces over zero and one segment record, the sequence consumed by Snapshot.ReadFrom and its helpers plus the CRC trailer; every buffer fill in the decoder is an exact-length read; no value derived from the loaded (possibly memory-mapped) data is used after its closer ran; no length decoded from the file sizes an allocation without a dominating bound check; rejected snapshots are skipped and accepted ones are checksummed (C03.R1/R2). every value decoded with binary.Uvarint is used only behind a test of its byte count, and no unsigned count from the file is converted to a signed integer without an upper bound. every configuration constructor validates checksums (C03.R4).",
 		NotCovered: "totality on ALL byte strings (that the roaring decoder and the segment plugins reject garbage); equality of decoded VALUES with the encoded ones (only the layout skeleton is compared).",
 	})
